@@ -78,14 +78,43 @@ Specific ==
 
 Acts == Common \cup Specific
 
+\* ---- merge schedules: every order in which k chunks can be combined pairwise -------------------
+Mode == EnvStr("ACC_MODE", "programs")
+TreeChunks == CASE Fl = "harm" -> << <<1, 2, 2>>, <<>>, <<3>>, <<1, 1, 1, 1, 1, 1, 1, 3>>, <<2, 1>> >>
+                [] Fl = "prop" -> << <<1, 0, 1>>, <<>>, <<0>>, <<1, 1, 1, 0, 1, 1, 0, 1>>, <<0, 0>> >>
+                [] OTHER -> << <<3, 1>>, <<>>, <<1>>, <<1, 3, 3, 1, 1, 1, 3, 1>>, <<3, 3>> >>
+NK == EnvInt("ACC_CHUNKS", 4)
+Fill == [i \in 1..NK |-> [a |-> (IF Fl = "prop" THEN "from_iter_bool" ELSE "from_iter"), r |-> i, xs |-> TreeChunks[i]]]
+LiveOf(p) == {r \in 1..NK : \A i \in DOMAIN p : ~(p[i].a \in {"add", "add_assign"} /\ p[i].q = r)}
+
 VARIABLES h, prog
 vars == <<h, prog>>
 Init == h = [r \in R |-> EmptyReg] /\ prog = <<>>
-Next == /\ Len(prog) < L
-        /\ \E act \in Acts :
-             /\ h' = Step(Fl, h, act)
-             /\ prog' = Append(prog, act)
-        /\ (Len(prog') = L) =>
-              Emit([op |-> "accum.program", fl |-> Fl, ty |-> Ty, nreg |-> NR, tol |-> (Fl = "geo"), steps |-> prog'])
+TreeNext ==
+    /\ Mode = "trees"
+    /\ IF prog = <<>>
+       THEN /\ prog' = Fill /\ h' = h
+            \* the same chunks through one real parallel reduction (rayon), several chunkings
+            /\ \A m \in 1..5 : (Fl \in {"arith", "harm", "geo", "prop"}) =>
+                  Emit([op |-> "accum.program", fl |-> Fl, ty |-> Ty, nreg |-> 1, tol |-> (Fl = "geo"),
+                        steps |-> << [a |-> "par_reduce", r |-> 1, chunks |-> SubSeq(TreeChunks, 1, m)],
+                                     [a |-> "par_reduce", r |-> 1, chunks |-> [i \in 1..(8 * m) |-> TreeChunks[(i % 5) + 1]]] >>])
+       ELSE /\ Cardinality(LiveOf(prog)) > 1
+            /\ \E r \in LiveOf(prog), q \in LiveOf(prog) : r # q /\
+                 \E kind \in {"add", "add_assign"} :
+                    /\ prog' = Append(prog, IF kind = "add" THEN [a |-> "add", r |-> r, q |-> q, t |-> r]
+                                            ELSE [a |-> "add_assign", r |-> r, q |-> q])
+                    /\ h' = h
+            /\ (Cardinality(LiveOf(prog')) = 1) =>
+                  Emit([op |-> "accum.program", fl |-> Fl, ty |-> Ty, nreg |-> NK, tol |-> FALSE, steps |-> prog'])
+ProgNext ==
+    /\ Mode = "programs"
+    /\ Len(prog) < L
+    /\ \E act \in Acts :
+         /\ h' = Step(Fl, h, act)
+         /\ prog' = Append(prog, act)
+    /\ (Len(prog') = L) =>
+          Emit([op |-> "accum.program", fl |-> Fl, ty |-> Ty, nreg |-> NR, tol |-> (Fl = "geo"), steps |-> prog'])
+Next == ProgNext \/ TreeNext
 Spec == Init /\ [][Next]_vars
 =============================================================================
